@@ -9,7 +9,21 @@ Import ListNotations.
 Local Open Scope Z_scope.
 
 (* additionalProperties as written on an object (absent = false) *)
-Inductive apmode := APFalse | APAny | APType (t : otype).
+Inductive apmode := APFalse | APAny | APType (t : otype) | APNull | APArray | APObject | APFormat (f : bytes).
+(* the rule value written as a type name: any, enum and mixed relate to every type and leave the additional properties
+   unconstrained; the string formats keep their name (datetime is spelled date-time) *)
+Definition ap_of_name (n : bytes) : option apmode :=
+  if beq_bytes n [97;110;121]%N || beq_bytes n [101;110;117;109]%N || beq_bytes n [109;105;120;101;100]%N then Some APAny
+  else if beq_bytes n [115;116;114;105;110;103]%N then Some (APType OString)
+  else if beq_bytes n [105;110;116;101;103;101;114]%N then Some (APType OInteger)
+  else if beq_bytes n [102;108;111;97;116]%N || beq_bytes n [100;101;99;105;109;97;108]%N then Some (APType ONumber)
+  else if beq_bytes n [98;111;111;108;101;97;110]%N then Some (APType OBoolean)
+  else if beq_bytes n [110;117;108;108]%N then Some APNull
+  else if beq_bytes n [97;114;114;97;121]%N then Some APArray
+  else if beq_bytes n [111;98;106;101;99;116]%N then Some APObject
+  else if beq_bytes n [101;109;97;105;108]%N || beq_bytes n [117;114;105]%N || beq_bytes n [117;117;105;100]%N || beq_bytes n [100;97;116;101]%N then Some (APFormat n)
+  else if beq_bytes n [100;97;116;101;116;105;109;101]%N then Some (APFormat [100;97;116;101;45;116;105;109;101]%N)
+  else None.
 
 (* an alternative of an `or` rule: a built-in scalar type with its rules (a bare name has none; `any`), or the names
    "object" / "array" *)
@@ -68,6 +82,10 @@ Definition ap_ok (ap : apmode) (v : jval) : Prop :=
   | APFalse => False
   | APAny => True
   | APType t => match v with JLit lit => js_type_ok (Some t) lit = true | _ => False end
+  | APNull => v = JLit w_null_lit                                            (* {"enum": [null]} *)
+  | APArray => match v with JArr _ => True | _ => False end                  (* {"type": "array", "items": {}} *)
+  | APObject => v = JObj []                                                  (* an object without properties, none admitted *)
+  | APFormat _ => match v with JLit lit => js_type_ok (Some OString) lit = true | _ => False end   (* format is an annotation *)
   end.
 
 (* validity of a JSON value against the Schema Object (OpenAPI 3.0: nullable admits null next to the rest) *)
